@@ -17,6 +17,11 @@ def _hexfile(wd):
     path = os.path.join(wd, "fw.hex")
     if not os.path.exists(path):
         ihex.write(path, bytes((i * 7 + 3) & 255 for i in range(200)))
+        # image files that cannot be used: end-of-file record only, no bytes at all, not Intel-HEX (and fw.hex.missing does
+        # not exist)
+        for suffix, content in ((".eof", ":00000001FF\n"), (".zero", ""), (".garbage", "this is not a hex file\n:zz\n")):
+            with open(path + suffix, "w", encoding="utf-8") as fh:
+                fh.write(content)
     return path
 
 
@@ -141,13 +146,20 @@ class GwCheck:
         seed0 = common.seed() * 1000003
         jobs = []
         k = 0
-        pdir = os.path.join(self.wd, "pers") if self.persist else None
+        pdir_all = os.path.join(self.wd, "pers")
         for ver in self.versions:
             for fl in self.flavours:
                 for i in range(self.n):
                     k += 1
                     raising = (i % 10) < self.raising_share * 10
-                    ext = self.exts[i % len(self.exts)]
+                    # checks that are not about persistence still run every fourth history with persistence enabled (both
+                    # formats in turn): periodic saves, stop and restart in the middle of whatever the property is about
+                    if self.persist:
+                        pdir, ext = pdir_all, self.exts[i % len(self.exts)]
+                    elif i % 4 == 3:
+                        pdir, ext = pdir_all, ("json", "pickle")[(i // 4) % 2]
+                    else:
+                        pdir, ext = None, self.exts[i % len(self.exts)]
                     jobs.append((seed0 + k, ver, fl, self.steps, self.profile, self.calls, pdir, raising, hexfile, ext,
                                  self.gen_opts(i)))
         rjobs = []
